@@ -163,7 +163,7 @@ def _num_parts_expr_ok(e, size_txt, p_txt):
     return t in (f'int(math.ceil({size_txt}/float({p_txt})))', f'calculate_num_parts({size_txt},{p_txt})')
 
 
-@rule('C14.b', ['C14', 'C02', 'C01'], floor=14)
+@rule('C14.b', ['C14', 'C02', 'C01', 'C09'], floor=14)
 def tiling_identities(ctx):
     """Polynomial identities of the planning expressions: range helpers tile [0, T);
     every writer's offset equals the start of the range it is paired with, built from the
